@@ -65,6 +65,8 @@ class Elf:
             return []
         base = s['off']
         d = self.d
+        if base + s['size'] > len(d):
+            return 'bad'            # section data not in the file: (*Section).Data fails
         magic, = struct.unpack_from('<I', d, base)
         if magic not in (0xfffffff0, 0xfffffff1) or d[base + 7] != 8:
             raise ValueError('unsupported pclntab %#x' % magic)
@@ -111,5 +113,22 @@ class Elf:
         nm, = struct.unpack_from('<I', self.d, src['ent'])
         struct.pack_into('<I', self.d, dst['ent'], nm)
 
+    def set_section_offset(self, name, off):
+        s = self.section(name)
+        struct.pack_into('<Q', self.d, s['hdr'] + 0x18, off)
+
+    def set_shoff(self, off):
+        struct.pack_into('<Q', self.d, 0x28, off)
+
     def bytes(self):
         return bytes(self.d)
+
+
+def describe_bytes(data):
+    """describe() of an image, or {'elf': False} when not even the section table can be read (elf.NewFile fails)"""
+    try:
+        d = Elf(data).describe()
+    except (ValueError, struct.error, IndexError):
+        return {'elf': False, 'text': None, 'pcln': None, 'syms': None}
+    d['elf'] = True
+    return d
